@@ -122,6 +122,11 @@ pub fn run_seed(base: u64, engine: &str, mode: &str, i: u64) -> u64 {
         // Bit-reversed index: a short batch still spreads over all frame kinds / stream kinds.
         return ((base % 1000) << 16) | ((i as u16).reverse_bits() as u64) | (1 << 40);
     }
+    if mode == "crashenum" {
+        // Enumeration: consecutive runs are the crash points of one base run.
+        let b = crate::kit::mix(crate::kit::mix(0xC03, base), i / props::CRASHENUM_POINTS) >> 20;
+        return (b << 16) | (i % props::CRASHENUM_POINTS);
+    }
     let mut h = crate::kit::hash_bytes(engine.as_bytes());
     h = crate::kit::mix(h, crate::kit::hash_bytes(mode.as_bytes()));
     h = crate::kit::mix(h, base);
